@@ -31,7 +31,9 @@ var (
 		"{200}", "{501}", "{251}", "{1000}"}
 	c11Items   = []string{"a", "b", "0", "9", "-", "a-z", "0-9", "a-a", "+--", "[:digit:]", "[:alpha:]", `\d`, `\w`, `\-`, `\]`, `\.`, "^", "{", ".", "_", " ", "a-b", "0-1",
 		"[:space:]", "[:word:]", "[:upper:]", "[:punct:]", `\:`, "[", ":", `\s`, `\S`, `\W`, ":alpha:", "}", ",",
-		"+-[:alpha:]", "*-+", "---", "8-:", `\=`, "=", "+--0"}
+		"+-[:alpha:]", "*-+", "---", "8-:", `\=`, "=", "+--0",
+		// a short range, a literal dash, a larger item: collapsing the range must not make the dash a range operator
+		"a-b-z", "0-1-9", "a-a-c", "0-0-a-b", "x-x-z", "a-c-z", "0-2-9a"}
 	c11Words   = []string{"ab", "abc", "a", "b", "http", "x0", "0", "ba", "cab", "-", "a-"}
 )
 
